@@ -1,1 +1,23 @@
-fn main() {}
+//! Monitors for the encodings: C18 (canonical JSON), C19 (identity documents), C20 (signed refs),
+//! C21 (textual identifiers).
+mod c18;
+mod c19;
+mod c20;
+mod c21;
+mod cjson;
+mod jsgen;
+
+fn main() {
+    vcommon::install_panic_hook();
+    let args = vcommon::Args::parse();
+    match args.prop.as_str() {
+        "C18" => c18::run(&args),
+        "C19" => c19::run(&args),
+        "C20" => c20::run(&args),
+        "C21" => c21::run(&args),
+        p => {
+            eprintln!("h-enc: unknown property {p}");
+            std::process::exit(2);
+        }
+    }
+}
